@@ -23,9 +23,7 @@ namespace avel {
         //=================================================
 
         explicit Denominator(Denom32u denom):
-            m(denom.m),
-            sh2(denom.sh2),
-            d(denom.d) {}
+            Denominator(vec8x32u{denom.value()}) {}
 
         explicit Denominator(vec8x32u d):
             Denominator(d, vec8x32u{32} - countl_zero(d - vec8x32u{1})) {}
